@@ -480,3 +480,185 @@ Example C18_example_missing_inputs :
    run_external [Lit "echo "%string; Key "seed"%string] [vint 1] [] None None)
   = (EIndexError 1, EKeyError "seed"%string).
 Proof. vm_compute. reflexivity. Qed.
+
+(** ---- non-vacuity of the hypotheses (audit) ----
+    Already witnessed above: [C18_example_rows] (VOk: output_length, entry_is_row_application), [C18_example_mismatch] (VError),
+    [C18_example_external_uses_meta] (vec_ext_length, row_seed, row_seeds_distinct: meta given, no [iib] keyword, three rows),
+    [C18_example_external_no_meta] (no_meta_same_seed), [C18_example_parse] (parse_stdout = Some for KInt / KFloat),
+    [C18_example_collect] (collect = Some), [C18_example_typed_by_row0_rejected] (typed_ok = true), [C18_model_ok] /
+    [C18_history_model_ok] (vok / ok_history = true on every model run).  The remaining ones: *)
+
+Example C18_entry_is_row_application_nonvacuous :
+  run_vectorized ex_inputs (Some [2]) None [("foo"%string, vint 9)] ex_meta true
+    = VOk ObjArray (map (expected_call ex_inputs [2] [("foo"%string, vint 9)] ex_meta) [0; 1; 2])
+  /\ 2 < batch_len ex_inputs (consts0 (Some [2])) None
+  /\ List.length (map (expected_call ex_inputs [2] [("foo"%string, vint 9)] ex_meta) [0; 1; 2]) = 3.
+Proof. vm_compute. repeat split; auto. Qed.
+
+Example C18_mismatch_rejected_iff_nonvacuous :
+  nth_error ex_inputs 2 = Some (VArr [vint 7; vint 8]) /\ is_const (consts0 None) 2 (VArr [vint 7; vint 8]) = false
+  /\ List.length (rows (VArr [vint 7; vint 8])) <> batch_len ex_inputs (consts0 None) None.
+Proof. vm_compute. repeat split; discriminate. Qed.
+
+Example C18_batch_len_first_nonvacuous :
+  (forall k y, nth_error [vint 5; VArr [vint 7; vint 8]] k = Some y -> is_const [1] k y = true)
+  /\ is_const [1] (List.length [vint 5; VArr [vint 7; vint 8]]) (VArr [vint 1; vint 2; vint 3]) = false
+  /\ batch_len ([vint 5; VArr [vint 7; vint 8]] ++ VArr [vint 1; vint 2; vint 3] :: [vint 0]) [1] None = 3.
+Proof.
+  assert (H : forall k y, nth_error [vint 5; VArr [vint 7; vint 8]] k = Some y -> is_const [1] k y = true).
+  { intros k y E. destruct k as [|[|k]]; simpl in E; try (injection E as <-; reflexivity). destruct k; discriminate. }
+  split; [exact H|]. split; [reflexivity|]. apply (C18_batch_len_first [vint 5; VArr [vint 7; vint 8]] (VArr [vint 1; vint 2; vint 3]) [vint 0] [1] H); reflexivity.
+Qed.
+
+Example C18_batch_len_default_nonvacuous :
+  (forall k y, nth_error [vint 5; VSeq [vint 0]; VArr [vint 7; vint 8]] k = Some y -> is_const [2] k y = true)
+  /\ batch_len [vint 5; VSeq [vint 0]; VArr [vint 7; vint 8]] [2] None = 1.
+Proof.
+  assert (H : forall k y, nth_error [vint 5; VSeq [vint 0]; VArr [vint 7; vint 8]] k = Some y -> is_const [2] k y = true).
+  { intros k y E. destruct k as [|[|[|k]]]; simpl in E; try (injection E as <-; reflexivity). destruct k; discriminate. }
+  split; [exact H|]. exact (C18_batch_len_default _ _ H).
+Qed.
+
+Example C18_format_pos_key_nonvacuous :
+  nth_error [vint 7; vint 8] 1 = Some (vint 8) /\ lookup "seed"%string [("x"%string, vint 1); ("seed"%string, vint 11)] = Some (vint 11)
+  /\ format [Pos 1] [vint 7; vint 8] [] = FOk "8"%string
+  /\ format [Key "seed"%string] [] [("x"%string, vint 1); ("seed"%string, vint 11)] = FOk "11"%string.
+Proof. vm_compute. repeat split. Qed.
+
+(** run_external = EOk with a seed drawn from a stream with collisions, a meta dict and a row index: external_command,
+    external_seed, external_seed_deterministic (two different templates / inputs, the same index), model_row_ok, row_ok_sound *)
+Example C18_external_nonvacuous :
+  run_external ex_toks [vint 8] [] (Some [("batch_index"%string, vint 4); (iib, vint 1)]) (Some ex_stream)
+    = EOk "echo 8 {x} 4 12 1"%string (Some 12%N)
+  /\ run_external [Lit "run "%string; Key "seed"%string] [] [("foo"%string, vint 9)] (Some [(iib, vint 1)]) (Some ex_stream)
+    = EOk "run 12"%string (Some 12%N)
+  /\ sub_index (unpack_meta [] (Some [("batch_index"%string, vint 4); (iib, vint 1)])) = 1
+  /\ sub_index (unpack_meta [("foo"%string, vint 9)] (Some [(iib, vint 1)])) = 1
+  /\ Seed.spec ex_stream 1 = Some 12%N
+  /\ row_ok ex_toks [vint 8] (unpack_meta [] (Some [("batch_index"%string, vint 4); (iib, vint 1)])) (Some ex_stream) 1
+       (OCmd "echo 8 {x} 4 12 1"%string (Some 12%N) None) = true.
+Proof. vm_compute. repeat split. Qed.
+
+Example C18_distinct_seeds_sound_nonvacuous :
+  distinct_seeds [OCmd "a"%string (Some 11%N) None; OKeyError "k"%string; OCmd "b"%string (Some 12%N) None; OCmd "c"%string (Some 13%N) None] [] = true
+  /\ option_map seed_of (nth_error [OCmd "a"%string (Some 11%N) None; OKeyError "k"%string; OCmd "b"%string (Some 12%N) None; OCmd "c"%string (Some 13%N) None] 0) = Some (Some 11%N)
+  /\ option_map seed_of (nth_error [OCmd "a"%string (Some 11%N) None; OKeyError "k"%string; OCmd "b"%string (Some 12%N) None; OCmd "c"%string (Some 13%N) None] 3) = Some (Some 13%N)
+  /\ 0 < 3.
+Proof. vm_compute. repeat split; auto. Qed.
+
+(** separator " ; " (core ";"), three fields, a newline tail *)
+Example C18_fields_roundtrip_nonvacuous :
+  trim (chars " ; ") <> [] /\ no_ws (trim (chars " ; ")) /\ all_ws (chars NL)
+  /\ Forall (fun g => no_ws g /\ clean (trim (chars " ; ")) g) ([chars "1.5"; chars "-20"] ++ [chars "abc"])
+  /\ fields " ; " (str (join (trim (chars " ; ")) ([chars "1.5"; chars "-20"] ++ [chars "abc"]) ++ chars NL))
+     = [chars "1.5"; chars "-20"; chars "abc"].
+Proof.
+  assert (H1 : trim (chars " ; ") <> []) by (vm_compute; discriminate).
+  assert (H2 : no_ws (trim (chars " ; "))).
+  { intros a H; vm_compute in H; repeat destruct H as [<-|H]; try reflexivity; contradiction. }
+  assert (H3 : all_ws (chars NL)).
+  { intros a H; vm_compute in H; repeat destruct H as [<-|H]; try reflexivity; contradiction. }
+  assert (H4 : Forall (fun g => no_ws g /\ clean (trim (chars " ; ")) g) ([chars "1.5"; chars "-20"] ++ [chars "abc"])).
+  { repeat constructor;
+      try (intros a H; vm_compute in H; repeat destruct H as [<-|H]; try reflexivity; contradiction);
+      intros a H; vm_compute in H; repeat destruct H as [<-|H]; try contradiction;
+      vm_compute; intros [E|[]]; discriminate E. }
+  refine (conj H1 (conj H2 (conj H3 (conj H4 _)))). exact (C18_fields_roundtrip _ _ _ _ H1 H2 H3 H4).
+Qed.
+
+(** separator tab, fields joined by a blank and a tab *)
+Example C18_ws_fields_roundtrip_nonvacuous :
+  trim (chars TAB) = [] /\ all_ws (chars (String.append " " TAB)) /\ chars (String.append " " TAB) <> [] /\ all_ws (chars NL)
+  /\ [chars "7"; chars "8.5"; chars "x"] <> []
+  /\ Forall (fun g => g <> [] /\ no_ws g) [chars "7"; chars "8.5"; chars "x"]
+  /\ fields TAB (str (join (chars (String.append " " TAB)) [chars "7"; chars "8.5"; chars "x"] ++ chars NL))
+     = [chars "7"; chars "8.5"; chars "x"].
+Proof.
+  assert (H1 : trim (chars TAB) = []) by reflexivity.
+  assert (H2 : all_ws (chars (String.append " " TAB))).
+  { intros a H; vm_compute in H; repeat destruct H as [<-|H]; try reflexivity; contradiction. }
+  assert (H3 : chars (String.append " " TAB) <> []) by (vm_compute; discriminate).
+  assert (H4 : all_ws (chars NL)).
+  { intros a H; vm_compute in H; repeat destruct H as [<-|H]; try reflexivity; contradiction. }
+  assert (H5 : [chars "7"; chars "8.5"; chars "x"] <> []) by discriminate.
+  assert (H6 : Forall (fun g => g <> [] /\ no_ws g) [chars "7"; chars "8.5"; chars "x"]).
+  { repeat constructor; try (vm_compute; discriminate);
+      intros a H; vm_compute in H; repeat destruct H as [<-|H]; try reflexivity; contradiction. }
+  refine (conj H1 (conj H2 (conj H3 (conj H4 (conj H5 (conj H6 _)))))). exact (C18_ws_fields_roundtrip _ _ _ _ H1 H2 H3 H4 H5 H6).
+Qed.
+
+Example C18_parse_nonvacuous :
+  parse_stdout KUInt ","%string (String.append "3,14, 15"%string NL) = Some [(3, 1%positive); (14, 1%positive); (15, 1%positive)]%Z
+  /\ parse_stdout KInt ","%string (String.append "3,14, 15"%string NL) = Some [(3, 1%positive); (14, 1%positive); (15, 1%positive)]%Z
+  /\ parse_stdout KInt ","%string (String.append "3,-14, 15"%string NL) = Some [(3, 1%positive); (-14, 1%positive); (15, 1%positive)]%Z
+  /\ parse_stdout KFloat ","%string (String.append "3,-14, 15"%string NL) = Some [(3, 1%positive); (-14, 1%positive); (15, 1%positive)]%Z
+  /\ List.length (fields ","%string (String.append "3,-14, 15"%string NL)) = 3.
+Proof. vm_compute. repeat split. Qed.
+
+(** separator "::" and three integers, one negative *)
+Example C18_parse_roundtrip_Z_nonvacuous :
+  trim (chars "::") <> [] /\ no_ws (trim (chars "::")) /\ (forall a, In a (trim (chars "::")) -> ~ In a numeric_chars)
+  /\ parse_stdout KFloat "::" (str (join (trim (chars "::")) (map (fun x => chars (render_Z x)) ([12; -3] ++ [0])%Z) ++ chars NL))
+     = Some (map (fun x => (x, 1%positive)) ([12; -3] ++ [0])%Z).
+Proof.
+  assert (H1 : trim (chars "::") <> []) by (vm_compute; discriminate).
+  assert (H2 : no_ws (trim (chars "::"))).
+  { intros a H; vm_compute in H; repeat destruct H as [<-|H]; try reflexivity; contradiction. }
+  assert (H3 : forall a, In a (trim (chars "::")) -> ~ In a numeric_chars).
+  { intros a H; vm_compute in H; repeat destruct H as [<-|H]; try contradiction;
+      vm_compute; intros E; repeat destruct E as [E|E]; try discriminate E; contradiction. }
+  refine (conj H1 (conj H2 (conj H3 _))). exact (C18_parse_roundtrip_Z _ _ _ H1 H2 H3 KFloat (or_intror eq_refl)).
+Qed.
+
+(** two returned rows that are the parses of their outputs; and a run that failed with a row whose output does not parse *)
+Example C18_parse_rows_ok_sound_nonvacuous :
+  parse_rows_ok ","%string (Some "int32"%string)
+    [OCmd "echo 5,4"%string None (Some (mkpout (String.append "5,4"%string NL) (Some ("int32"%string, [(5, 1%positive); (4, 1%positive)]%Z))));
+     OCmd "echo 6,4"%string None (Some (mkpout (String.append "6,4"%string NL) (Some ("int32"%string, [(12, 2%positive); (4, 1%positive)]%Z))))] = true
+  /\ parse_rows_ok ","%string None
+    [OCmd "echo 5,4"%string None (Some (mkpout (String.append "5,4"%string NL) (Some ("float64"%string, [(5, 1%positive); (4, 1%positive)]%Z))));
+     OCmd "echo a,4"%string None (Some (mkpout (String.append "a,4"%string NL) None))] = true.
+Proof. vm_compute. repeat split. Qed.
+
+Example C18_promotion_nonvacuous :
+  Permutation [KB; KF; KI; KB] [KI; KB; KB; KF]
+  /\ promote_all [KB; KF; KI; KB] = KF /\ promote_all [KI; KB; KB; KF] = KF
+  /\ Permutation [OSc (SInt 0); OVec [SBool true; SFloat 1 2]] [OVec [SBool true; SFloat 1 2]; OSc (SInt 0)]
+  /\ In KI [KB; KF; KI; KB] /\ kind_le KI (promote_all [KB; KF; KI; KB]) = true.
+Proof.
+  split.
+  { apply Permutation_trans with (KB :: KI :: KF :: KB :: nil).
+    - apply perm_skip. apply perm_swap.
+    - apply Permutation_trans with (KI :: KB :: KF :: KB :: nil); [apply perm_swap|].
+      do 2 apply perm_skip. apply perm_swap. }
+  repeat split; try reflexivity; [apply perm_swap | simpl; auto].
+Qed.
+
+Example C18_promotion_least_nonvacuous :
+  [KB; KI; KB] <> [] /\ (forall k, In k [KB; KI; KB] -> kind_le k KF = true) /\ promote_all [KB; KI; KB] = KI
+  /\ kind_le (promote_all [KB; KI; KB]) KF = true.
+Proof.
+  assert (H : forall k, In k [KB; KI; KB] -> kind_le k KF = true).
+  { intros k H; simpl in H; repeat destruct H as [<-|H]; try reflexivity; contradiction. }
+  repeat split; auto; discriminate.
+Qed.
+
+Example C18_widening_nonvacuous :
+  kind_le (kind_of_scal (SInt (-7))) KF = true /\ is_other KF = false /\ cast KF (SInt (-7)) = Some (SFloat (-7) 1)
+  /\ has_kind KF (SFloat (-7) 1) = true /\ same_value (SInt (-7)) (SFloat (-7) 1) = true
+  /\ kind_le (kind_of_scal (SStr "lo")) (KS 8) = true /\ cast (KS 8) (SStr "lo") = Some (SStr "lo").
+Proof. vm_compute. repeat split. Qed.
+
+Example C18_collect_no_row_narrowed_nonvacuous :
+  homogeneous [OVec [SInt 0; SBool true]; OVec [SFloat 1 2; SInt 3]; OVec [SInt 4; SInt 5]] = true
+  /\ is_other (promote_all (kinds [OVec [SInt 0; SBool true]; OVec [SFloat 1 2; SInt 3]; OVec [SInt 4; SInt 5]])) = false
+  /\ collect DNone [OVec [SInt 0; SBool true]; OVec [SFloat 1 2; SInt 3]; OVec [SInt 4; SInt 5]]
+     = Some ("float64"%string, [OVec [SFloat 0 1; SFloat 1 1]; OVec [SFloat 1 2; SFloat 3 1]; OVec [SFloat 4 1; SFloat 5 1]]).
+Proof. vm_compute. repeat split. Qed.
+
+(** vok / ok_history hold on a concrete non-degenerate model run (three rows, a marked constant, meta) *)
+Example C18_ok_sound_nonvacuous :
+  vok (model_case (fun c => OSc (SInt (Z.of_nat (List.length (c_args c))))) DNone ex_inputs (Some [2]) None [("foo"%string, vint 9)] ex_meta) = true
+  /\ v_impl (model_case (fun c => OSc (SInt (Z.of_nat (List.length (c_args c))))) DNone ex_inputs (Some [2]) None [("foo"%string, vint 9)] ex_meta)
+     <> None.
+Proof. vm_compute. split; [reflexivity | discriminate]. Qed.
